@@ -313,6 +313,8 @@ static void crash_handler(int sig){
   vrt_dump();
   _exit(4);
 }
+/* a harness gives up waiting for quiescence: same verdict as a hang */
+void vrt_giveup(const char *what){ verdict(what, 5); }
 void vrt_install_crash_handlers(void){
   struct sigaction sa; static char altstack[65536]; stack_t ss;
   ss.ss_sp = altstack; ss.ss_size = sizeof altstack; ss.ss_flags = 0; sigaltstack(&ss, 0);
